@@ -313,6 +313,18 @@ func (e *bigEnv) fieldPath(fa *ssa.FieldAddr) string {
 		if g, ok := b.X.(*ssa.Global); ok {
 			return "global:" + g.Name() + "." + name
 		}
+		if _, ok := b.X.(*ssa.IndexAddr); ok {
+			return e.cenv.canon(b).String() + "." + name
+		}
+		if n, ok := e.names[b]; ok {
+			return n + "." + name
+		}
+	case *ssa.Phi:
+		if n, ok := e.names[b]; ok {
+			return n + "." + name
+		}
+	case *ssa.IndexAddr:
+		return e.cenv.canon(b).String() + "." + name
 	case *ssa.Global:
 		return "global:" + b.Name() + "." + name
 	case *ssa.Field:
